@@ -18,6 +18,7 @@ Clauses the unchanged tree violates are stated in full in `Witness.lean`, refute
 run, and proved here in their `_partial` form under an explicit decidable exclusion.
 -/
 import CaddyModel.C02.Lemmas
+import CaddyModel.C02.Reload
 import CaddyModel.C02.Witness
 
 namespace CaddyModel.C02
@@ -269,6 +270,46 @@ theorem served_by_old_or_new_of_no_rejection {s : State} (h : Reach s) (hr : s.e
     connect s a ≠ [] ∧ ∀ o, o ∈ connect s a → ∃ g, o = .answered g ∧ alive s g :=
   connect_current_address_answered h (no_rejected_reload_no_zombies h hr).1 hc ha
 
+/-! ### the code's own reload, and sequences of them -/
+
+/-- **`reload old new π` is a run of the machine, for every config pair and every schedule**, and it
+    ends settled with the new config running: the theorems above therefore speak about every prefix
+    of the step list the code executes. -/
+theorem reload_is_a_run {s0 : State} (h0 : Reach s0) (hs : settled s0) (hr : s0.everRejected = false)
+    (new : Cfg) (hf : s0.fresh ≤ new.gen) (hnd : new.addrs.Nodup) (π : Sched) :
+    ∃ s, run s0 (reloadSteps new s0.cur π) = some s ∧ Reach s ∧ settled s ∧ s.cur = some new ∧ s.zombies = [] := by
+  have k := h0.kinv hr
+  obtain ⟨s, h1, hr1, hp1, hd1, hc1, hz1⟩ := reloadSteps_run h0 hs.1 hs.2 new hf hnd (fun a _ hu => k.not_stale hu) π
+  exact ⟨s, h1, hr1, ⟨hp1, hd1⟩, hc1, hz1.trans k.noZombies⟩
+
+/-- **retained_never_unbound, in the form of the design: ∀ prefix of (reload old new π), holders a ≥ 1**
+    for every address both configs listen on — for all configs, all schedules π. -/
+theorem reload_never_unbinds_retained {s0 : State} (h0 : Reach s0) (hs : settled s0) {old : Cfg}
+    (hc : s0.cur = some old) (new : Cfg) (π : Sched) {a : Addr} (hao : a ∈ old.addrs) (han : a ∈ new.addrs)
+    (pre suf : List Step) (hsplit : reloadSteps new (some old) π = pre ++ suf)
+    (s1 : State) (h1 : run s0 pre = some s1) : 1 ≤ s1.holders a := by
+  have hq : KeepInv a s0 := ⟨⟨old, hc, hao⟩, fun n hn => by rw [h0.inv.idleNext hs.1] at hn; cases hn⟩
+  have hk : keeps a pre = true := keeps_append_left a pre suf (hsplit ▸ keeps_reloadSteps han (some old) π)
+  exact retained_never_unbound h0 hq pre hk h1
+
+/-- **the reload meets its spec**: after `reload old new π` (any π) exactly the new config answers on
+    its addresses and nothing listens on any other address. -/
+theorem reload_meets_spec {s0 : State} (h0 : Reach s0) (hs : settled s0) (hr : s0.everRejected = false)
+    (new : Cfg) (hf : s0.fresh ≤ new.gen) (hnd : new.addrs.Nodup) (π : Sched) :
+    ∃ s, run s0 (reloadSteps new s0.cur π) = some s ∧
+      (∀ a, a ∈ new.addrs → servers s a = [new.gen]) ∧ (∀ a, a ∉ new.addrs → servers s a = []) := by
+  obtain ⟨s, h1, hr1, hs1, hc1, hz1⟩ := reload_is_a_run h0 hs hr new hf hnd π
+  refine ⟨s, h1, fun a ha => after_drain_only_new_partial hr1 hz1 hs1 hc1 ha, fun a ha => ?_⟩
+  exact (dropped_address_has_no_listener hr1 hz1 hs1 (fun c hc => by rw [hc1] at hc; cases hc; exact ha)).1
+
+/-- **every sequence of reloads** (any configs with increasing generations and duplicate-free address
+    lists, any schedule for each reload) is a run from the initial state, ends settled and never leaves
+    a half-started config behind. -/
+theorem reload_sequence_is_a_run (cfgs : List (Cfg × Sched)) (hok : okSeq 0 cfgs) :
+    ∃ s, run init (reloadSeq none cfgs) = some s ∧ Reach s ∧ settled s ∧ s.zombies = [] := by
+  obtain ⟨s, h1, hr, hp, hd, _, hz⟩ := reloadSeq_run cfgs (s0 := init) Reach.init rfl rfl rfl hok
+  exact ⟨s, h1, hr, ⟨hp, hd⟩, hz⟩
+
 /-! ### the order matters -/
 
 def exT0 : Addr := ⟨false, 0⟩
@@ -334,6 +375,19 @@ example : ((run init (reloadSteps exOld none (.mk 2 0 1 0 0 0) ++ [.accept 7 0 e
 -- … and it cannot be completed by the other config
 example : (run init (reloadSteps exOld none (.mk 2 0 1 0 0 0) ++ [.accept 7 0 exT0] ++
       reloadSteps exNew (some exOld) exSched ++ [.complete 7 1])).isNone = true := by decide
+
+-- hypotheses of `reload_is_a_run` / `reload_meets_spec` / `reload_never_unbinds_retained`: a reachable
+-- settled state with a running config, no rejected load so far, a fresh generation for the next config
+example : ((run init exHistory).map fun s => (s.everRejected, s.fresh, genOf s.cur)) = some (false, 2, some 1) := by decide
+-- a strict prefix of the second reload: after both binds, before the swap, holders = 2 on both addresses
+example : ((run init (reloadSteps exOld none (.mk 2 0 1 0 0 0) ++ (reloadSteps exNew (some exOld) exSched).take 7)).map
+    fun s => (s.holders exT0, s.holders exU0, genOf s.cur)) = some (2, 2, some 0) := by decide
+
+-- `okSeq` / `reloadSeq`: a three-config history with a listener-set change
+example : okSeq 0 [(exOld, exSched), (exNew, exSched), (⟨5, [exT0]⟩, exSched)] := by
+  simp [okSeq, exOld, exNew, exT0, exU0]
+example : ((run init (reloadSeq none [(exOld, exSched), (exNew, exSched), (⟨5, [exT0]⟩, exSched)])).map
+    fun s => (servers s exT0, servers s exU0, connect s exU0)) = some ([5], [], [.hangs]) := by decide
 
 -- `unlinks`: the fresh bind of a unix socket is the unlinking step, and nobody holds it then
 example : unlinks init (.bind exU0) exU0 := ⟨rfl, rfl, rfl⟩
